@@ -337,6 +337,12 @@ def call_builtin(ex, name, node, st):
     if name in ("math.pow", "pow"):
         na, x = to_float(args[0])
         nb, y = to_float(args[1])
+        ys = z3.simplify(y)
+        if z3.is_rational_value(ys) and ys.denominator_as_long() == 1 and 0 <= ys.numerator_as_long() <= 8:
+            r = z3.RealVal(1)
+            for _ in range(ys.numerator_as_long()):
+                r = r * x if not (z3.is_rational_value(r) and r.numerator_as_long() == 1 and r.denominator_as_long() == 1) else x
+            return vfloat(r, na)
         return vfloat(mathlib.POW(x, y), or_(na, nb))
     if name in ("np.real", "np.imag") and isinstance(args[0].kind, KComplex):
         return vfloat(args[0].terms[0 if name.endswith("real") else 1])
